@@ -129,3 +129,33 @@ Theorem C09_ubj_accepted_chunks : forall vfail cs evs p, forallb all_bytes cs = 
   exists ts, evs = flat_map flatten ts /\ forallb wf_tree ts = true.
 Proof. exact SF.Ubjson.AcceptedProofs.C09_ubj_accepted_chunks. Qed.
 Print Assumptions C09_ubj_accepted_chunks.
+
+From SF Require Core.Visitors Core.VisitorsProofs.
+(* Inlining (gotype/fold_inline.go through visitors/expect_obj.go): the filter placed in front
+   of the visitor while an inlined value is folded lets every value inside the outermost
+   object through (typed containers as their expansion), at any depth ... *)
+Theorem C09_inline_filter_passes : forall t d s, 1 <= d -> s_fail s = None ->
+  SF.Core.Visitors.eo_run (SF.Core.VisitorsProofs.at_depth d s) (flatten t) =
+  (SF.Core.VisitorsProofs.at_depth d (SF.Core.VisitorsProofs.push (SF.Core.VisitorsProofs.xflat (flatten t)) s),
+   SF.Core.Visitors.EoNone).
+Proof. exact SF.Core.VisitorsProofs.every_tree_passes. Qed.
+Print Assumptions C09_inline_filter_passes.
+
+(* ... so that a well-formed object arrives as a sequence of members of a well-formed object with
+   the same keys and values, and the filter is done (depth 0) afterwards ... *)
+Theorem C09_inline_members_wf : forall len bt ms s, s_fail s = None ->
+  wf_tree (TObj len bt ms) = true ->
+  exists ms',
+    SF.Core.Visitors.eo_run (SF.Core.Visitors.eo0 s) (flatten (TObj len bt ms)) =
+      (SF.Core.Visitors.eo0 (SF.Core.VisitorsProofs.push (flatten_members ms') s), SF.Core.Visitors.EoNone) /\
+    wf_tree (TObj len bt ms') = true /\
+    map (fun m => (fst (fst m), value_of (snd m))) ms' = map (fun m => (fst (fst m), value_of (snd m))) ms.
+Proof. exact SF.Core.VisitorsProofs.C09_inline_members_wf. Qed.
+Print Assumptions C09_inline_members_wf.
+
+(* ... while a value that is not an object is refused at its first event and nothing reaches the
+   visitor (the enclosing object is not damaged). *)
+Theorem C09_inline_non_object_refused : forall t s, SF.Core.VisitorsProofs.is_object t = false ->
+  SF.Core.Visitors.eo_run (SF.Core.Visitors.eo0 s) (flatten t) = (SF.Core.Visitors.eo0 s, SF.Core.Visitors.EoNotObject).
+Proof. exact SF.Core.VisitorsProofs.inline_non_object_refused. Qed.
+Print Assumptions C09_inline_non_object_refused.
